@@ -1,6 +1,6 @@
 (* Properties_C08.v — C08: coroutine mutex, FIFO hand-off and no lost request.
    Statements only; proofs are `exact <lemma of MutexProofs>`.  Same model and vocabulary as Properties_C07. *)
-From Cocls Require Import Base BaseProofs MutexDefs MutexProofs MutexSched.
+From Cocls Require Import Base BaseProofs MutexDefs MutexProofs MutexSched MutexObs.
 Local Open Scope Z_scope.
 
 (* first come, first served: the grants are a prefix of the publishing CASes; the pending requests are, in
@@ -57,6 +57,15 @@ Theorem c08_bounded_waiting : forall ops s w, reachable ops s -> waiting s w ->
   exists a b, alog s = glog s ++ a ++ w :: b /\ ~ In w a /\ (forall x, In x a -> waiting s x).
 Proof. exact bounded_waiting. Qed.
 Print Assumptions c08_bounded_waiting.
+
+(* fragment of oracle soundness: the final observation block of any run that stopped: no error line, no stuck
+   thread (no deadlock line), last line "8 0 1 1" (no overlap, requests = null, queue = null), every contender done *)
+Theorem c08_final_block : forall ops s, reachable ops s -> (forall t, enabled s t = false) ->
+  err s = false /\ stuck_list (thrs s) 0 = [] /\
+  [8; b2z (ovl s); is_null (requests s); is_null (queue s)] = [8; 0; 1; 1] /\
+  (forall c, tpc (gtask s c) = PDone) /\ alog s = glog s.
+Proof. exact final_block. Qed.
+Print Assumptions c08_final_block.
 
 (* the invariant behind all of this is inductive over every step of every thread *)
 Theorem c08_invariant_inductive : forall s t, SInv s -> enabled s t = true -> SInv (fst (fst (tstep s t))).
